@@ -52,7 +52,7 @@ META = {
     "level_text": "Every type's boundary values and seeded random values are inserted by four delivery paths and read back through 16 nesting contexts (Core and ORM) on real SQLite in both cext and purepy modes; tagging TypeDecorators make a skipped or doubled processor visible in the value and in the hook counters.",
     "level_note": "Execution only on SQLite. Other dialects: only bind/result processor symmetry of types with a symmetric wire format, on dialect objects without a server. literal_binds delivery belongs to C05 and is not repeated here. ARRAY only at processor level.",
     "design_ref": "DESIGN.md section 4, C09",
-    "rule": "case = (type, value class, delivery, context); non-trivial = boundary value or nesting depth >= 2",
+    "rule": "case = one compared cell; distinct by (type, context, delivery, value class = boundary index | random | null); non-trivial = boundary value or nesting depth >= 2 (part B: one case per tagging context and round, non-trivial = depth >= 2)",
     "shards": {"quick": 4, "thorough": 8},   # x 2 modes
     "modes": ["cext", "purepy"],
     "soft_s": {"quick": 50, "thorough": 800},
@@ -313,7 +313,7 @@ def part_a(ctx, sa, orm, engine_factory):
     reg.map_imperatively(cls, t)
     nbound = max(len(s[2]) for s in specs)
     nrand = ctx.pick({"quick": 24, "thorough": 600})
-    rounds = ctx.pick({"quick": 2, "thorough": 8})
+    rounds = ctx.pick({"quick": 2, "thorough": 24})
     try:
         for rnd in range(rounds):
             if rnd and not ctx.budget_ok():
@@ -386,8 +386,15 @@ def part_a(ctx, sa, orm, engine_factory):
                             if isb:
                                 ctx.count("boundary_cells")
                             judge_cell(ctx, by_name, n, o[n], vals[n], cname, deliv[o["tag"]], depth, isb)
+                            # one case per cell; distinct by (type, context, delivery, value class)
+                            vc = "null" if o["tag"] == "allnull" else (f"b{o['tag'][1:]}" if isb else "rand")
+                            key = (n, cname, deliv[o["tag"]], vc)
+                            if key in CASE_KEYS:
+                                ctx.case()
+                            else:
+                                CASE_KEYS.add(key)
+                                ctx.case(key, nontrivial=isb or depth >= 2)
                     ctx.seen("context", cname)
-                    ctx.case({"part": "A", "context": cname, "round": rnd, "shard": ctx.shard}, nontrivial=True)
             # ---- DML RETURNING
             with eng.begin() as c:
                 res = c.execute(sa.update(t).values(tag=t.c.tag + "").returning(t.c.id, *[t.c[n] for n in names]))
@@ -413,6 +420,7 @@ def part_a(ctx, sa, orm, engine_factory):
 
 
 FAILS = {}
+CASE_KEYS = set()
 
 
 def flush_failures(ctx):
@@ -528,7 +536,7 @@ def part_b(ctx, sa, orm, engine_factory):
     reg.map_imperatively(cls, t)
     qcls = type("Sq", (object,), {})
     reg.map_imperatively(qcls, q)
-    rounds = ctx.pick({"quick": 4, "thorough": 120})
+    rounds = ctx.pick({"quick": 4, "thorough": 400})
 
     def expect(row):
         """what every SELECT context must deliver for a stored row"""
